@@ -8,7 +8,8 @@ if os.path.exists(p):
     for l in open(p):
         f = l.rstrip('\n').split('\t')
         if len(f) >= 5:
-            res[(f[0], f[1])] = dict(exit=f[2].split('=')[1], violations=int(f[3].split('=')[1]), no_failing_input=int(f[4].split('=')[1]))
+            res[(f[0], f[1])] = dict(exit=f[2].split('=')[1], violations=int(f[3].split('=')[1]), no_failing_input=int(f[4].split('=')[1]),
+                                     demo=(f[5].split('=')[1], f[6].split('=')[1]) if len(f) >= 7 else None)
 
 
 def bullet(text, *keys):
@@ -38,8 +39,9 @@ for d in sorted(glob.glob(os.path.join(HERE, 'seeded', 'C*', 'm*'))):
         what_it_needs_to_manifest=bullet(notes, 'need', 'trigger', 'needed to manifest') or 'see notes.md',
         why_it_breaks_the_property=bullet(notes, 'why it breaks', 'effect', 'violation') or 'see notes.md',
         tests_run_with_the_patch=bullet(notes, 'tests run', 'tests with patch', 'existing tests', 'tests') or 'see notes.md',
-        confirmed_by_us='demo.py exits 0 on the clean worktree and 1 with patch.diff applied (tools/confirm_seed.sh); the pinned test files named above keep their outcomes',
-        apply='git -C /repo apply /verif/seeded/%s/%s/patch.diff ; undo: git -C /repo checkout -- .' % (pid, mk),
+        round={'m1': 1, 'm2': 1, 'm3': 2, 'm4': 2, 'm5': 3, 'm6': 3}.get(mk),
+        confirmed_by_us=('demo.py exit status on the clean tree / with patch.diff applied: %s / %s (tools/one_mutation_alt.sh, scratch worktree at /repo HEAD)' % r['demo'] if r and r.get('demo') else 'demo.py exits 0 on the clean worktree and 1 with patch.diff applied') + '; the pinned test files named above keep their outcomes',
+        apply='git -C /repo apply /verif/seeded/%s/%s/patch.diff ; undo: git -C /repo checkout -- .   (or, without touching /repo: tools/one_mutation_alt.sh %s %s)' % (pid, mk, pid, mk),
         caught_by='./check %s --tier quick' % pid,
         detection=(None if r is None else
                    ('not detected' if r['exit'] == '0' else
